@@ -106,6 +106,12 @@ META = {
         "IEEE rounding of the matrix products / of Exp(d)·X is measured against the 192-bit model at the property's "
         "tolerance, not proved",
         "the corrector formulas (C09), the solver's internals (C10) and the accept/reject loop (C08) are parameters here",
+        "not modelled (oracles on the real code only): the sparse `update_parameter` / `sparse=True` path, the `vectorize` flag of "
+        "modjac (both settings must meet the finite-difference Jacobian), atomicity of the real step() (the model's gnCall is "
+        "atomic by construction; the code updates parameters one after the other and LM writes self.last/self.loss before its "
+        "loop — decided by the `atomic` oracle), GN with non-square weight blocks (outside the SPD domain)",
+        "a full step() costs O(N^2) in the number of residual rows (row-by-row Jacobian): exercised up to 2^12+1 rows in quick and "
+        "2^14+1 in thorough; the entry points that are linear in N (update_parameter, the correctors) run at 2^16+1",
         "programs exclude Jinvp and Exp/Log of RxSO3/Sim3 (truncated-series backward passes would not meet the 1e-6 Jacobian "
         "oracle); RxSO3/Sim3 still occur as group parameters under Inv/@/Act/Adj/AdjT/matrix and in the update Exp(d)·X",
     ],
